@@ -346,6 +346,8 @@ class Facts:
         import symex as _symex
         _symex.PROMOTED.clear()
         _symex._PROMOTED_CACHE.clear()
+        _symex.BODIES.clear()
+        _symex.BODIES.update(self.bodies)
         for k, b in self.bodies.items():
             if b.kind == 'Promoted':
                 _symex.PROMOTED[k] = b
